@@ -1,12 +1,167 @@
 import Driver.Util
-/-! Driver section for C18 (stub until the model is online). -/
-namespace Driver.C18
-open Rxn Driver
+import Driver.C07
+import RxnModel.Model.Compaction
+/-!
+Driver section for C18.
 
-def step (st : Unit) : List String → Unit × String
+`mode=direct`: a level list built table by table, real `Compactor.Compact` steps on it, flush arrivals between the
+computation and the application of a change set. Lines are `op ## impl-output`.
+
+* `tbl l run` / `flush run`   add a table (both to the model of the real list and to the never-compacted reference)
+* `compact`                   impl: `o=<few><amp>/<met…>/<over…> none|cs L<l> rm=<ids> add=<runs> cur=<cursor>`;
+                              echoed; the model's own `compact` runs with these oracle answers
+* `apply`                     the real change set is applied (`applyCS`)
+* `valid`                     P-obs: `LayoutValid` evaluated on the dump of the real layout
+* `get k` / `scan p`          P-obs: answered from the never-compacted reference (compaction must not change the view)
+* `safe`                      M-obs: the real change set lies in `SafeCS` and passes `Lsm.safeCS`, at computation and
+                              at application time
+* `pick`                      M-obs: what the model's `compact` produced (removed ids, level, tables, cursor)
+* `layout`                    M-obs: the model's level list
+-/
+namespace Driver.C18
+open Rxn Driver Rxn.Lsm Rxn.Compaction
+
+def showEntry (e : Entry) : String :=
+  toHex e.key ++ ":" ++ toString e.seq ++ ":" ++ (if e.del then "1" else "0") ++ ":" ++ toHex e.val
+
+def showRun (r : Run) : String :=
+  if r.isEmpty then "empty" else joinWith ";" (r.map showEntry)
+
+def showLevel (l : List Tbl) : String :=
+  if l.isEmpty then "-" else joinWith "|" (l.map fun t => toString t.id ++ "=" ++ showRun t.run)
+
+def showLayout (L : Levels) : String := joinWith "/" (L.map showLevel)
+
+def parseTbl (s : String) : Tbl :=
+  match s.splitOn "=" with
+  | [i, r] => ⟨natOr i, Driver.C07.parseRun r⟩
+  | _ => ⟨0, []⟩
+
+def parseLevel (s : String) : List Tbl :=
+  if s == "-" || s == "" then [] else (s.splitOn "|").map parseTbl
+
+def parseLayout (s : String) : Levels := (s.splitOn "/").map parseLevel
+
+def bits (s : String) : List Bool := s.toList.map (· == '1')
+
+/-- `o=<few><amp>/<met…>/<over…>` and the cut lengths of the real tables -/
+def parseOracle (s : String) (cuts : List Nat) : Oracle :=
+  match ((s.drop 2).toString.splitOn "/") with
+  | [fa, met, over] =>
+    let fa' := bits fa
+    let met' := bits met
+    let over' := bits over
+    { l0Few := fa'.getD 0 false, overAmp := fa'.getD 1 false,
+      goalMet := fun n => met'.getD (n - 1) false, levelOver := fun i => over'.getD i false, cuts := cuts }
+  | _ => { l0Few := false, overAmp := false, goalMet := fun _ => false, levelOver := fun _ => false, cuts := cuts }
+
+def sortNat (l : List Nat) : List Nat := l.foldr (fun x acc => (acc.filter (· < x)) ++ x :: (acc.filter (fun y => !(y < x)))) []
+
+def showIds (l : List Nat) : String := if l.isEmpty then "-" else joinWith "," ((sortNat l).map toString)
+
+def showCS (cs : Option ChangeSet) (cur : Nat) : String :=
+  match cs with
+  | none => "none cur=" ++ toString cur
+  | some c =>
+    "cs L" ++ toString c.lvl ++ " rm=" ++ showIds c.rm ++ " add=" ++
+      (if c.add.isEmpty then "none" else joinWith "|" (c.add.map showRun)) ++ " cur=" ++ toString cur
+
+structure Applied where
+  atCompute : Levels
+  atApply : Levels
+  cs : ChangeSet
+
+structure St where
+  L : Levels := []
+  nextId : Nat := 0
+  /-- the same history without any compaction -/
+  ref : Levels := []
+  refNext : Nat := 0
+  comp : Compactor := {}
+  pending : Option (ChangeSet × Levels) := none
+  predicted : String := "none cur=0"
+  last : Option Applied := none
+  init : Bool := false
+
+def ensureInit (st : St) (hdr : List String) : St :=
+  if st.init then st else
+  let n := (hdr.filterMap fun w => if w.startsWith "levels=" then some (natOr (w.drop 7).toString) else none).headD 6
+  { st with L := List.replicate n [], ref := List.replicate n [], init := true }
+
+def addTbl (st : St) (lvl : Nat) (r : Run) : St :=
+  { st with L := addAt st.L lvl [⟨st.nextId, r⟩], nextId := st.nextId + 1,
+            ref := addAt st.ref lvl [⟨st.refNext, r⟩], refNext := st.refNext + 1 }
+
+def field (pfx : String) (ws : List String) : Option String :=
+  (ws.filterMap fun w => if w.startsWith pfx then some (w.drop pfx.length).toString else none).head?
+
+def stepDirect (st : St) (op hint : List String) : St × String :=
+  match op with
+  | ["tbl", l, r] => (addTbl st (natOr l) (Driver.C07.parseRun r), "ok")
+  | ["flush", r] => (addTbl st 0 (Driver.C07.parseRun r), "ok")
+  | ["compact"] =>
+    if st.pending.isSome then (st, "busy") else
+    match hint with
+    | o :: rest =>
+      let cur := natOr ((field "cur=" rest).getD "0")
+      let real : Option ChangeSet :=
+        match rest with
+        | "cs" :: lv :: _ =>
+          let rm := Driver.C07.parseIds ((field "rm=" rest).getD "-")
+          let addS := (field "add=" rest).getD "none"
+          let runs := if addS == "none" then [] else (addS.splitOn "|").map Driver.C07.parseRun
+          some { rm := rm, lvl := natOr (lv.drop 1).toString, add := runs }
+        | _ => none
+      let cuts := match real with | some c => c.add.map (·.length) | none => []
+      let orc := parseOracle o cuts
+      let (pcs, comp') := compact st.comp st.L orc
+      let st' := { st with comp := comp', predicted := showCS pcs comp'.minorLevel,
+                           pending := real.map (fun c => (c, st.L)) }
+      (st', o ++ " " ++ showCS real cur)
+    | _ => (st, "bad-hint")
+  | ["apply"] =>
+    match st.pending with
+    | none => (st, "none")
+    | some (cs, atc) =>
+      ({ st with L := applyCS st.L st.nextId cs, nextId := st.nextId + cs.add.length, pending := none,
+                 last := some { atCompute := atc, atApply := st.L, cs := cs } }, "ok")
+  | ["valid"] =>
+    match hint with
+    | [d, _] =>
+      let real := parseLayout d
+      (st, d ++ (if decide (LayoutValid real) then " valid" else " INVALID"))
+    | _ => (st, "bad-hint")
+  | ["get", k] =>
+    (st, match levelsGet st.ref (hexOr k) with
+      | some e => "e " ++ showEntry e
+      | none => "none")
+  | ["scan", p] => (st, showRun (scanView st.ref (hexOr p)))
+  | ["safe"] =>
+    match st.last with
+    | none => (st, "safe")
+    | some a =>
+      let c := a.cs
+      let r1 := decide (SafeCS a.atCompute c.rm c.lvl c.add)
+      let r2 := decide (SafeCS a.atApply c.rm c.lvl c.add)
+      let r3 := safeCS a.atCompute c.rm c.lvl c.add
+      let r4 := safeCS a.atApply c.rm c.lvl c.add
+      let r5 := decide (LayoutValid a.atApply)
+      (st, if r1 && r2 && r3 && r4 && r5 then "safe" else
+        "not-safe family@compute=" ++ toString r1 ++ " family@apply=" ++ toString r2 ++ " test@compute=" ++ toString r3 ++
+          " test@apply=" ++ toString r4 ++ " validBefore=" ++ toString r5)
+  | ["pick"] => (st, st.predicted)
+  | ["layout"] => (st, showLayout st.L)
   | _ => (st, "bad-op")
 
+def splitHint (ws : List String) : List String × List String :=
+  let i := ws.idxOf "##"
+  (ws.take i, ws.drop (i + 1))
+
 def handle (lines : Array String) (i : Nat) (out : Array String) : Nat × Array String :=
-  runLines step () lines i out
+  let hdr := if i ≥ 1 then words (lines[i - 1]!) else []
+  if hdr.contains "mode=db" then
+    Driver.C07.handle lines i out
+  else
+    runLines (fun st ws => let (op, hint) := splitHint ws; stepDirect (ensureInit st hdr) op hint) ({} : St) lines i out
 
 end Driver.C18
